@@ -76,6 +76,12 @@ def gen_details(rng, p=0.3, variables=True):
         d['parallel_interference_factor'] = rng.choice([2.5, 1, '1.5'])
     if rng.random() < p / 2:
         d['env'] = rng.choice([{}, {'A': 'x'}, {'PATH': '/bin', 'B': '1'}, {'H': '{HOME}/x', 'J': '{}'}])
+    # a YAML null (`~`, `null`, empty value) is accepted for every non-required scalar and means
+    # "not set here": the setting of the enclosing level / the default applies
+    for k in ('invocations', 'iterations', 'warmup', 'min_iteration_time', 'max_invocation_time',
+              'retries_after_failure', 'ignore_timeouts', 'execute_exclusively', 'parallel_interference_factor'):
+        if rng.random() < p / 6:
+            d[k] = None
     if not variables:
         return d
     if rng.random() < p / 2:
@@ -380,6 +386,17 @@ experiments:
                               'executors:\n  E1: {executable: x}\nexperiments:\n  X: {suites: [S1], executions: [E1]}\n'),
     ('nul-in-names', 'benchmark_suites:\n  "S\\01": {gauge_adapter: Time, command: "c\\0", benchmarks: ["b\\0"]}\nexecutors:\n  E1: {executable: x}\n'
                      'experiments:\n  X: {suites: ["S\\01"], executions: [E1]}\n'),
+    ('null-details-every-level',
+     'runs: {invocations: ~, iterations: null, warmup: , retries_after_failure: ~, min_iteration_time: ~, max_invocation_time: ~, ignore_timeouts: ~, execute_exclusively: ~, parallel_interference_factor: ~}\n'
+     'machines:\n  m1: {retries_after_failure: ~, invocations: ~}\n'
+     'benchmark_suites:\n  S1:\n    gauge_adapter: Time\n    command: c %(benchmark)s\n    retries_after_failure:\n    max_invocation_time: null\n    iterations: ~\n'
+     '    benchmarks:\n      - b1\n      - b2: {retries_after_failure: ~, warmup: ~, min_iteration_time: ~, execute_exclusively: ~}\n'
+     'executors:\n  E1: {executable: x, retries_after_failure: ~, ignore_timeouts: ~, invocations: ~}\n'
+     'experiments:\n  X:\n    suites: [S1]\n    retries_after_failure: ~\n    executions:\n      - E1: {retries_after_failure: ~, iterations: ~}\n'),
+    ('null-retries-runs', 'runs: {retries_after_failure: ~}\nbenchmark_suites:\n  S1: {gauge_adapter: Time, command: c, benchmarks: [b]}\n'
+                          'executors:\n  E1: {executable: x}\nexperiments:\n  X: {suites: [S1], executions: [E1]}\n'),
+    ('null-retries-benchmark', 'benchmark_suites:\n  S1: {gauge_adapter: Time, command: c, benchmarks: [{b: {retries_after_failure: }}]}\n'
+                               'executors:\n  E1: {executable: x}\nexperiments:\n  X: {suites: [S1], executions: [E1]}\n'),
     ('empty-key', 'benchmark_suites:\n  "": {gauge_adapter: Time, command: c, benchmarks: [b]}\n'),
 ]
 
@@ -669,7 +686,7 @@ def run(ck):
                       'any traceback of the session is an oracle failure (signature phase: after-compile)']
     cases = load_corpus()
     ck.count('corpus', len(cases))
-    cases += [(k, t, [], False) for (k, t) in ANCHOR_TEXTS]
+    cases += [(k, t, [], k.startswith(('null-details-', 'null-retries-', 'quoted-invocations', 'anchor-merge', 'profile-ok'))) for (k, t) in ANCHOR_TEXTS]
     cases += [(k + '/-p', t, ['-p'], False) for (k, t) in ANCHOR_TEXTS if k.startswith(('command-', 'quoted-', 'anchor-merge'))]
     n = 240 if quick else 3000
     for _ in range(n):
